@@ -182,6 +182,14 @@ class VConstDict(Value):
 
 
 @dataclass
+class VPartial(Value):
+    """functools.partial(f, *args, **kwargs) / operator.itemgetter(k) (f = None, args = (k,))"""
+    func: object
+    args: tuple
+    kwargs: dict
+
+
+@dataclass
 class VRecordType(Value):
     """a collections.namedtuple class bound at module level: calling it builds a record (a VObj whose attributes are the fields, in order)"""
     name: str
